@@ -217,7 +217,15 @@ def run_ghost_code(e: Engine, st: State, code: str, k=None):
         st.store["k"] = SV(INT, k)
     try:
         for stmt in tree.body:
-            if isinstance(stmt, ast.Assign) and len(stmt.targets) == 1:
+            if isinstance(stmt, ast.Assert):
+                # ghost assertion: an intermediate lemma -- proved here, then available to later obligations
+                g = e.truthy(st, e.ev(stmt.test, st))
+                nm = stmt.msg.value if isinstance(stmt.msg, ast.Constant) else "lemma"
+                e.emit(f"ghost:assert:{nm}", g, st, kind="lemma")
+                st.assume(g)
+            elif isinstance(stmt, ast.Expr):
+                e.ev(stmt.value, st)
+            elif isinstance(stmt, ast.Assign) and len(stmt.targets) == 1:
                 val = e.ev(stmt.value, st)
                 t = stmt.targets[0]
                 if isinstance(t, ast.Attribute) and isinstance(t.value, ast.Name) and t.value.id == "ghost":
